@@ -816,13 +816,15 @@ func agree(phrase string) (accepted bool, err error) {
 	return e1 == nil, nil
 }
 
-var seedCheck = &core.Check{Name: "c15/seed", Quick: 8, Thorough: 400, Fn: func(c *core.Ctx) error {
+var seedCheck = &core.Check{Name: "c15/seed", Quick: 20, Thorough: 400, Fn: func(c *core.Ctx) error {
 	if len(wallet.WORDLIST) != 2048 {
 		return fmt.Errorf("word list has %d words", len(wallet.WORDLIST))
 	}
 	// (a) a phrase found by a deterministic search from a drawn starting point
 	sm := core.NewSplitMix(c.U64("search start"))
-	words := make([]string, 24)
+	nwords := c.OneOf("words", 24, 24, 12, 12, 13, 18)
+	c.Class(fmt.Sprintf("phrase of %d words", nwords))
+	words := make([]string, nwords)
 	for i := range words {
 		words[i] = wallet.WORDLIST[sm.Intn(2048)]
 	}
@@ -838,7 +840,7 @@ var seedCheck = &core.Check{Name: "c15/seed", Quick: 8, Thorough: 400, Fn: func(
 		if b == 1 || b == 2 || b == 128 || b == 255 {
 			nearMiss[b] = p
 		}
-		words[tries%24] = wallet.WORDLIST[sm.Intn(2048)]
+		words[tries%nwords] = wallet.WORDLIST[sm.Intn(2048)]
 		if tries++; tries > 40000 {
 			return fmt.Errorf("HARNESS: no valid phrase found in %d tries", tries)
 		}
@@ -868,7 +870,7 @@ var seedCheck = &core.Check{Name: "c15/seed", Quick: 8, Thorough: 400, Fn: func(
 	// (b) neighbours: one word replaced; almost all fail the version check
 	for j := 0; j < 6; j++ {
 		w2 := append([]string{}, words...)
-		w2[c.Intn("pos", 24)] = wallet.WORDLIST[c.Intn("word", 2048)]
+		w2[c.Intn("pos", nwords)] = wallet.WORDLIST[c.Intn("word", 2048)]
 		p2 := strings.Join(w2, " ")
 		if p2 == phrase {
 			continue
